@@ -82,6 +82,12 @@ CHECKS = {
    note="Trusted: ioequiv.describe/diff (150 lines), raw GLPK read-back. Groups compared for pickle only.",
    technique="runtime round-trip monitor with whole-model description equality",
    ref="DESIGN.md §4 C11"),
+ "C12": dict(
+   level="exploration",
+   text="Three monitors on every copy (Model.copy, copy.deepcopy, pickle; groups, notes, nested annotation lists, user constraints, 0-2 contexts open at copy time): whole-state equivalence of copy and original (content, cross references, raw GLPK problem, tolerance); object-identity disjointness of reactions, metabolites, genes, groups, rules, notes/annotation containers incl. nested lists, compartment dictionary, solver variables/constraints/objective; and a taint test - 10-step histories of catalogue operations plus in-place mutations of every mutable attribute on one side with the snapshot of the other side compared after every step, then roles swapped; leaving the original's contexts must not touch the copy. Reaction.copy, Metabolite.copy, + - *: operands unchanged, results detached, editing results does not reach the model.",
+   note="Trusted: snapshot/diff, id()-based sharing detector. Solver solution state not compared.",
+   technique="runtime taint monitor (whole-state comparison of the untouched side after every step) + identity checker",
+   ref="DESIGN.md §4 C12"),
  "C15": dict(
    level="fault_enumeration",
    text="Reference-model monitor in lock-step with the real DictList: bounded-exhaustive operation sequences (every index in [-n-2,n+1], every slice, every failing argument position) plus seeded random long sequences; coherence, list-semantics equality and unchanged-on-raise judged after every step. Exhaustive within the stated bounds, sampled beyond.",
